@@ -470,7 +470,15 @@ func init() {
 			so := hj("C02.sender-source", "H_C02_sender_source", "real sender whose source file was shortened or removed after the scan")
 			so.Threads, so.Workers, so.MaxPaths, so.TimerBudget = true, 16, 5000000, 1
 			so.Stubs = map[string]interceptFn{repoModule + "/internal/transfer.readAtWithPool": stubReadAtDirect}
-			js := []*Job{r, sn, sc, ob, so}
+			el := hj("C02.endtoend-lost", "H_C02_endtoend_lost", "real sender and real receiver, connection lost at the n-th write of a stream direction (n < 24), between or inside writes, in-flight bytes delivered or dropped; canonical schedule")
+			el.Threads, el.Workers, el.MaxPaths, el.CanonicalBlock = true, 16, 5000000, true
+			el.TimerBudget = 1
+			el.Stubs = map[string]interceptFn{repoModule + "/internal/transfer.readAtWithPool": stubReadAtDirect}
+			ec := hj("C02.endtoend-cancel", "H_C02_endtoend_cancel", "real sender and real receiver, one caller cancels at any observation of its context or while everybody waits; canonical schedule")
+			ec.Threads, ec.Workers, ec.MaxPaths, ec.CanonicalBlock = true, 16, 5000000, true
+			ec.TimerBudget = 1
+			ec.Stubs = map[string]interceptFn{repoModule + "/internal/transfer.readAtWithPool": stubReadAtDirect}
+			js := []*Job{r, sn, sc, ob, so, el, ec}
 			if tier == "thorough" {
 				pr := hj("C02.receiver-preempt", "H_C02_receiver", "faulty scripted sender, schedules with one preemption of a goroutine at a select")
 				pr.Threads, pr.TimersNeverFire, pr.Workers, pr.MaxPaths = true, true, 16, 5000000
@@ -508,7 +516,13 @@ func init() {
 			tw.EagerCalls = []string{"writeFileDone", "hashFileChunk"}
 			tw.Workers = 16
 			tw.MaxPaths = 5000000
-			return []*Job{n, r, tw}
+			ee := hj("C03.endtoend", "H_C03_endtoend", "edge tree shapes between the real sender and the real receiver (canonical schedule; thorough: one preemption)")
+			ee.Threads, ee.Workers, ee.MaxPaths, ee.TimersNeverFire, ee.CanonicalBlock = true, 16, 5000000, true, true
+			if tier == "thorough" {
+				ee.Preempt = 1
+			}
+			ee.Stubs = map[string]interceptFn{repoModule + "/internal/transfer.readAtWithPool": stubReadAtDirect}
+			return []*Job{n, r, tw, ee}
 		},
 	})
 
